@@ -87,7 +87,8 @@ impl LimCfg {
 }
 
 fn lim_configs(tier: Tier) -> Vec<LimCfg> {
-    let bounds = [(1usize, 2usize, 3usize), (2, 2, 2), (1, 1, 4)];
+    // (the last two: an initial limit outside [min, max] - the constructors must bring it in)
+    let bounds = [(1usize, 2usize, 3usize), (2, 2, 2), (1, 1, 4), (2, 9, 4), (2, 0, 4)];
     let programs: Vec<Vec<&'static str>> = tier.pick(
         vec![vec!["f", "x"], vec!["x", "x"], vec!["f", "f"], vec!["fs", "x"], vec!["f", "s", "x"]],
         vec![vec!["f", "x"], vec!["x", "x"], vec!["f", "f"], vec!["fs", "x"], vec!["f", "s", "x"], vec!["fx", "xf"], vec!["ff", "xx"], vec!["v", "f", "x"]],
